@@ -29,5 +29,5 @@ MCKeys == UNION {   {AllZero(L), AllFF(L), Counting(L), CountDown(L)}
                \cup {RandKey(L, j) : j \in 1 .. NRand}   : L \in 0 .. MaxLen }
 MCSeeds == {ZERO, <<0, 1>>, <<65535, 65535>>, <<32768, 0>>} \cup {RandSeed(j) : j \in 1 .. NRandSeeds}
 
-ObsEmit(op, args, ret, post) == PrintT(ToJson([op |-> op, args |-> args, ret |-> ret]))
+ObsEmit(op, args, ret, post) == PrintT(ToJson([act |-> post.act, op |-> op, args |-> args, ret |-> ret]))
 ================================================================================
